@@ -6,7 +6,7 @@ GLOBAL_TRUSTED = [
     'machine arithmetic is modelled exactly (Verus checks every overflow, Kani is bit-precise); nothing is treated as mathematical',
 ]
 
-KC = ['common.rs']
+KC = ['common.rs', 'field_util.rs']
 
 PROPS = {
     'C09': {
@@ -18,6 +18,17 @@ PROPS = {
         'quick': {
             'verus': [('fp_ops', 'unit', 32), ('fp_ops', 'unit', 64)],
             'kani': [{'files': KC + ['c09_field.rs']}],
+        },
+        'thorough': {},
+    },
+    'C13': {
+        'level': 'proof',
+        'explanation': 'Element-level group laws proved full-domain (Kani) and from the add contract (Verus fp_ops); pointwise merge/accumulate contracts incl. frame on error (Kani, bounded vector length, listed under bounded[]); vector/batch-level commutativity, associativity, identity and batch-split independence for ANY length and ANY batch partition are Verus lemmas over sequences (c13_seq).',
+        'trusted': ['Field255 element addition = fiat-crypto (assumed commutative/associative)',
+                    'induction from the bounded pointwise contract (len<=3) to arbitrary length is by the shape of the loop (zip over both slices), not mechanised'],
+        'quick': {
+            'verus': [('c13_seq', 'unit'), ('fp_ops', 'unit', 32), ('fp_ops', 'unit', 64)],
+            'kani': [{'files': KC + ['c13_field.rs', 'c13_vdaf.rs', 'c13_poplar1.rs']}],
         },
         'thorough': {},
     },
